@@ -1,5 +1,6 @@
 """C16 Substance properties scale linearly and invert.  DESIGN.md section 4, C16."""
 import cg
+import facts
 import hirutil as H
 import k2
 import numtree
@@ -48,7 +49,8 @@ def run(chk, F):
 def siblings(chk, F):
     n = 0
     for name in ("get", "to_reply", "get_in_unit"):
-        fn = F.find(CORE, SUB + name)
+        # (private helpers the arithmetic has been moved into are put back: one copy per call, with that call's operands)
+        fn = F.find(CORE, SUB + name, inline=True, keep=("Option::<T>", "Iterator", "bool::then", "conformance_err"))
         for g in [fn] + F.closures_of(fn):
             ts = role_trees(g)
             if not ts:
@@ -117,14 +119,26 @@ def name_pairs(F, g):
 
 
 def get_gates(chk, F):
-    fn = F.find(CORE, SUB + "get")
+    fn = F.find(CORE, SUB + "get", inline=True, keep=("Option::<T>", "Iterator", "bool::then", "conformance_err"))
     fk = "rink_core::" + SUB + "get"
     # Ok(res) returns in the dimensioned branch
     oks = []
     errs = []
+    # the return slot, and the return slots of the helpers put back in place (they are moved into it)
+    flows = {0}
+    grew = True
+    while grew:
+        grew = False
+        for i, j, st in fn.stmts():
+            rv = st.get("rv", {})
+            if st["k"] == "assign" and st["place"]["l"] in flows and not st["place"]["p"] and rv.get("k") == "use":
+                pl = facts.place_of(rv["a"])
+                if pl and not pl["p"] and pl["l"] not in flows:
+                    flows.add(pl["l"])
+                    grew = True
     for i, j, st in fn.stmts():
         rv = st.get("rv", {})
-        if st["k"] == "assign" and st["place"]["l"] == 0 and rv.get("k") == "agg" and rv.get("adt", "").endswith("result::Result"):
+        if st["k"] == "assign" and st["place"]["l"] in flows and not st["place"]["p"] and rv.get("k") == "agg" and rv.get("adt", "").endswith("result::Result"):
             if rv["variant"] == "Ok":
                 oks.append((i, numtree.tree(fn.apath(rv["ops"][0]))))
             else:
@@ -318,18 +332,28 @@ def mixture_weights(chk, F):
     fn = fns[0]
     fk = "rink_core::<&Substance as Add<&Substance>>::add"
     # the construction of the result (the closure that builds the properties is created there)
-    sites = [i for i, j, st in fn.stmts() if st.get("rv", {}).get("k") == "agg" and st["rv"].get("agg") == "closure"]
+    # where the summed properties are built: a `Property { .. }` in add itself (a loop over the shared properties), or the
+    # creation of the closure that builds them (a filter_map over them)
+    def builds_property(g):
+        return any(st.get("rv", {}).get("k") == "agg" and str(st["rv"].get("adt", "")).endswith("substance::Property") for _, _, st in g.stmts())
+    with_prop = {c.id for c in F.closures_of(fn) if builds_property(c)}
+    sites = [i for i, j, st in fn.stmts() if st.get("rv", {}).get("k") == "agg" and st["rv"].get("agg") == "closure" and st["rv"]["closure"]["id"] in with_prop]
+    sites += [i for i, j, st in fn.stmts() if st.get("rv", {}).get("k") == "agg" and str(st["rv"].get("adt", "")).endswith("substance::Property")]
     if not sites:
-        raise AnchorLost("Add for &Substance: property-building closure not found")
-    need = {"arg1.amount": False, "arg2.amount": False}
-    for bb in sites[:1]:
+        raise AnchorLost("Add for &Substance: the construction of the summed properties was not found (in add or in a closure of it)")
+    ok = True
+    need = {}
+    for bb in sorted(set(sites)):
+        need = {"arg1.amount": False, "arg2.amount": False}
         for g in fn.guards_of(bb):
             d = fn.guard_desc(g)
             if d[0] == "bool" and d[1][0][0] == "call" and d[1][0][1].endswith("Number::dimless") and d[2] is True:
                 a = ap_str(d[1][0][2][0])
                 if a in need:
                     need[a] = True
-    ok = all(need.values())
+        ok = ok and all(need.values())
+        if not ok:
+            break
     chk.decide(ok, "mixture-weights", fk, "amounts-dimensionless", fn.where(sites[0]),
                "the summed properties are built only when both amounts are dimensionless",
                "substances are added with their amounts as weights but the amounts are not required to be dimensionless (%s): a dimensioned amount "
